@@ -214,6 +214,7 @@ class World:
         self._in_watch = False
         self.finished = False
         self.payload_of: dict = {}
+        self.replica_of: dict = {}  # tag of a replica object -> tag of the event it was rebuilt from (same event_id)
         self.hre_parent: dict = {}  # root tag -> tag of the event whose handler re-dispatched it first (it becomes its parent)
         self.accepted: set = set()
 
@@ -453,7 +454,8 @@ def make_handler(w: World, hi: int, hspec: dict):
             if x is None or x in anc:
                 break
             anc.add(x)
-        cands = [t for t in w.roots if t not in anc]
+        # ... nor an object with the id of the event being handled (its replica / original): dispatching that is forwarding
+        cands = [t for t in w.roots if t not in anc and w.events[t].event_id != ev.event_id]
         if not cands or w.ndisp >= w.cap:
             w.rec('disp-skip', by=list(me))
             return
@@ -472,6 +474,29 @@ def make_handler(w: World, hi: int, hspec: dict):
         rec['same'] = got is obj
         if not rec['had_parent']:
             w.hre_parent[tag] = ev.tag
+
+    def do_fwdreplica(ev, me, op):
+        """['fwdreplica', bus]: the handler forwards a REPLICA of the event it is handling - same event_id, different object (the event
+        went through model_dump / model_validate, as it does across a process bridge or a WAL replay) - to another bus"""
+        if w.ndisp >= w.cap:
+            w.rec('disp-skip', by=list(me))
+            return
+        w.ndisp += 1
+        tag = w.next_tag
+        w.next_tag += 1
+        rep = type(ev).model_validate({**ev.model_dump(), 'tag': tag})
+        w.events[tag] = rep
+        w.replica_of[tag] = ev.tag
+        rec = w.rec('disp', by=list(me), ev=tag, bus=bus_name(w.sc, op[1]), mode='ff', xp=None, rep=True, of=ev.tag)
+        try:
+            got = w.buses[op[1]].dispatch(rep)
+        except Exception as ex:
+            rec['ok'] = False
+            rec['exc'] = type(ex).__name__
+            w.rec('disp-rej', by=list(me), ev=tag, exc=type(ex).__name__)
+            return
+        rec['ok'] = True
+        rec['same'] = got is rep
 
     def do_redispatch(ev, me, tb, tag):
         """the handler hands a child object the bus refused earlier to the same bus again"""
@@ -536,6 +561,8 @@ def make_handler(w: World, hi: int, hspec: dict):
                     pend = []
                 elif k == 'hredisp':
                     do_hredisp(ev, me, op)
+                elif k == 'fwdreplica':
+                    do_fwdreplica(ev, me, op)
                 elif k == 'fan':
                     # fan out op[2] fire-and-forget children to one bus; the bus may refuse some (back-pressure). With op[3] the
                     # handler does what the error message says: waits for the accepted ones, then dispatches the refused objects again
@@ -618,6 +645,8 @@ def make_handler(w: World, hi: int, hspec: dict):
                     do_dispatch(ev, me, op, [])
                 elif k == 'hredisp':
                     do_hredisp(ev, me, op)
+                elif k == 'fwdreplica':
+                    do_fwdreplica(ev, me, op)
                 elif k == 'raise':
                     if op[1] == 'chain':
                         try:
@@ -797,6 +826,30 @@ async def run_actor(w: World, ai: int, ops: list):
                     except Exception as ex:  # noqa
                         rec2['ok'] = False
                         rec2['exc'] = type(ex).__name__
+        elif k == 'replay':
+            # ['replay', root, bus]: ordinary code rebuilds a COMPLETED event from its dump (same event_id, same event_path; as when a
+            # WAL line is replayed) and dispatches the rebuilt object: for the bus it is a new object to be delivered to every handler
+            done = [t for t in w.roots if w.is_complete(w.events[t]) and t not in w.replica_of]
+            if not done or w.ndisp >= w.cap:
+                continue
+            w.ndisp += 1
+            src = w.events[done[op[1] % len(done)]]
+            tag = w.next_tag
+            w.next_tag += 1
+            e = type(src).model_validate({**src.model_dump(), 'tag': tag})
+            w.events[tag] = e
+            w.replica_of[tag] = src.tag
+            w.parent[tag] = ('A', ai)
+            rec = w.rec('disp', by=who, ev=tag, bus=bus_name(w.sc, op[2]), xp=None, replay_of=src.tag, path=list(e.event_path))
+            try:
+                got = w.buses[op[2]].dispatch(e)
+                rec['ok'] = True
+                rec['same'] = got is e
+                w.roots.append(tag)
+            except Exception as ex:  # noqa
+                rec['ok'] = False
+                rec['exc'] = type(ex).__name__
+                w.rec('disp-rej', by=who, ev=tag, exc=type(ex).__name__)
         elif k == 'redisp':
             if not w.roots:
                 continue
@@ -1129,6 +1182,7 @@ def run_scenario(sc: dict, *, keep_world: bool = False, spin_budget: int = 60_00
     out['children'] = {t: list(c) for t, c in w.children.items()}
     out['ndisp'] = w.ndisp
     out['payload_of'] = dict(w.payload_of)
+    out['replica_of'] = dict(w.replica_of)
     out['observed_complete'] = {t: {'at': v['at'], 'how': v['how']} for t, v in w.observed_complete.items()}
     if wal_ctx is not None:
         out['wal'] = wal_ctx.result
